@@ -26,14 +26,17 @@ import (
 	"github.com/containernetworking/cni/pkg/skel"
 	corev1 "k8s.io/api/core/v1"
 	networkv1 "k8s.io/api/networking/v1"
+	apierrors "k8s.io/apimachinery/pkg/api/errors"
 	"k8s.io/apimachinery/pkg/api/resource"
 	metav1 "k8s.io/apimachinery/pkg/apis/meta/v1"
 	k8sruntime "k8s.io/apimachinery/pkg/runtime"
+	"k8s.io/apimachinery/pkg/runtime/schema"
 	"k8s.io/client-go/kubernetes/fake"
 	corev1lister "k8s.io/client-go/listers/core/v1"
 	networkingv1lister "k8s.io/client-go/listers/networking/v1"
 	k8stesting "k8s.io/client-go/testing"
 	"k8s.io/client-go/tools/cache"
+	fakegalaxy "tkestack.io/galaxy/pkg/ipam/client/clientset/versioned/fake"
 
 	"gxverif/lockset"
 	"gxverif/total"
@@ -45,6 +48,7 @@ import (
 	"tkestack.io/galaxy/pkg/galaxy"
 	ipamcontext "tkestack.io/galaxy/pkg/ipam/context"
 	"tkestack.io/galaxy/pkg/ipam/schedulerplugin"
+	"tkestack.io/galaxy/pkg/ipam/schedulerplugin/util"
 	"tkestack.io/galaxy/pkg/network/portmapping"
 	"tkestack.io/galaxy/pkg/policy"
 	"tkestack.io/galaxy/pkg/utils/ipset"
@@ -62,6 +66,7 @@ type outcome struct {
 	Follow string `json:"f,omitempty"` // ok | wedged | panic | -
 	FDet   string `json:"fd,omitempty"`
 	Exit   bool   `json:"x,omitempty"` // the worker exits after this answer (abandoned goroutine)
+	Fault  string `json:"ft,omitempty"`
 }
 
 // guard: recover + watchdog.  f returns (class, detail) with class result|error|skip.
@@ -101,6 +106,7 @@ func errClass(err error) (string, string) {
 // ---------------------------------------------------------------- world
 
 type world struct {
+	confd    *lockset.Ipamd // the instance the configuration surface reloads (kept apart: its pools are whatever the last case left)
 	ipamd    *lockset.Ipamd
 	last     string
 	fixedPod *corev1.Pod
@@ -127,14 +133,93 @@ func fipPod(name string) *corev1.Pod {
 			Requests: corev1.ResourceList{corev1.ResourceName(constant.ResourceName): *q}}}}}}
 }
 
+// fault plan of the case being processed (the worker is sequential): which apiserver calls fail and how.  It is derived
+// from the input bytes, so a replay injects the same faults.
+type faultPlan struct {
+	kind   string // "" | bind-notfound | bind-500 | kube-all | crd-all | crd-kth
+	failAt int
+	calls  int
+}
+
+var curFault faultPlan
+
+func planFor(in []byte) faultPlan {
+	h := fnv.New32a()
+	h.Write(in)
+	v := h.Sum32()
+	switch v % 20 {
+	case 10, 11, 12:
+		return faultPlan{kind: "bind-notfound"}
+	case 13:
+		if (v/20)%4 == 0 { // Bind retries any other error for 3 s: keep these few
+			return faultPlan{kind: "bind-500"}
+		}
+	case 14, 15:
+		return faultPlan{kind: "kube-all"}
+	case 16:
+		return faultPlan{kind: "crd-all"}
+	case 17, 18, 19:
+		return faultPlan{kind: "crd-kth", failAt: int(v/20) % 4}
+	}
+	return faultPlan{}
+}
+
+func podsGR() schema.GroupResource { return schema.GroupResource{Resource: "pods"} }
+
+func (w *world) confIpam() *lockset.Ipamd {
+	if w.confd == nil {
+		d, err := lockset.NewIpamd(lockset.DefaultPools)
+		if err != nil {
+			panic("ipamd setup: " + err.Error())
+		}
+		w.confd = d
+		w.last = ""
+	}
+	return w.confd
+}
+
 func (w *world) ipam() *lockset.Ipamd {
 	if w.ipamd == nil {
 		d, err := lockset.NewIpamd(lockset.DefaultPools)
 		if err != nil {
 			panic("ipamd setup: " + err.Error())
 		}
+		// decorated clientsets: reactors which only look at the plan (they never call back into the clientset)
+		d.Client.PrependReactor("*", "*", func(a k8stesting.Action) (bool, k8sruntime.Object, error) {
+			switch curFault.kind {
+			case "bind-notfound":
+				if a.GetVerb() == "create" && a.GetSubresource() == "binding" {
+					return true, nil, apierrors.NewNotFound(podsGR(), "gone")
+				}
+			case "bind-500":
+				if a.GetVerb() == "create" && a.GetSubresource() == "binding" {
+					return true, nil, apierrors.NewInternalError(fmt.Errorf("injected"))
+				}
+			case "kube-all":
+				if a.GetVerb() != "watch" && a.GetVerb() != "list" && a.GetSubresource() != "binding" {
+					return true, nil, apierrors.NewInternalError(fmt.Errorf("injected"))
+				}
+			}
+			return false, nil, nil
+		})
+		if gc, ok := d.Ctx.GalaxyClient.(*fakegalaxy.Clientset); ok {
+			gc.PrependReactor("*", "*", func(a k8stesting.Action) (bool, k8sruntime.Object, error) {
+				if a.GetVerb() == "watch" {
+					return false, nil, nil
+				}
+				switch curFault.kind {
+				case "crd-all":
+					return true, nil, apierrors.NewInternalError(fmt.Errorf("injected"))
+				case "crd-kth":
+					curFault.calls++
+					if curFault.calls-1 == curFault.failAt {
+						return true, nil, apierrors.NewConflict(schema.GroupResource{Resource: a.GetResource().Resource}, "x", fmt.Errorf("injected"))
+					}
+				}
+				return false, nil, nil
+			})
+		}
 		w.ipamd = d
-		w.last = ""
 		w.fixedPod = fipPod("fixed-0")
 	}
 	return w.ipamd
@@ -325,8 +410,8 @@ func sanitizeCNI(in []byte) []byte {
 }
 
 var surfaces = []*surface{
-	{name: "conf", family: "ipam", call: func(w *world, in []byte) (string, string) {
-		d := w.ipam()
+	{name: "conf", family: "ipamconf", call: func(w *world, in []byte) (string, string) {
+		d := w.confIpam()
 		_, err := d.Plugin.VerifLsEnsureIPAMConf(&w.last, string(in))
 		return errClass(err)
 	}},
@@ -356,21 +441,26 @@ var surfaces = []*surface{
 		_, _, err = d.Plugin.Filter(pod, d.Nodes)
 		return errClass(err)
 	}},
-	{name: "bind", family: "ipam", call: func(w *world, in []byte) (string, string) {
+	{name: "bind", family: "ipam", timeout: 6 * time.Second, call: func(w *world, in []byte) (string, string) {
 		pod, err := decodePod(in)
 		if err != nil {
 			return errClass(err)
 		}
 		d := w.ipam()
-		// the lister is what Bind reads: put the object there directly
-		if pod.Name != "" {
+		// the lister is what Bind reads: put the object there directly — except for some cases, in which the scheduler
+		// asks to bind a pod the lister does not (yet / any more) know
+		h := fnv.New32a()
+		h.Write(in)
+		if pod.Name != "" && h.Sum32()%7 != 0 {
 			d.Ctx.PodInformer.Informer().GetIndexer().Add(pod)
 			defer d.Ctx.PodInformer.Informer().GetIndexer().Delete(pod)
 		}
-		if _, _, err := d.Plugin.Filter(pod, d.Nodes); err != nil {
-			return errClass(err)
+		if h.Sum32()%3 != 0 {
+			d.Plugin.Filter(pod, d.Nodes) // what the scheduler does first; Bind is called whatever Filter answered
 		}
-		err = d.Plugin.Bind(&schedulerapi.ExtenderBindingArgs{PodName: pod.Name, PodNamespace: pod.Namespace, PodUID: pod.UID, Node: "node1"})
+		err = d.Plugin.Bind(&schedulerapi.ExtenderBindingArgs{PodName: pod.Name, PodNamespace: pod.Namespace, PodUID: pod.UID,
+			Node: bindNode(pod, h.Sum32())})
+		d.Plugin.VerifLsDrainUnreleased()
 		return errClass(err)
 	}},
 	{name: "unbind", family: "ipam", call: func(w *world, in []byte) (string, string) {
@@ -561,6 +651,21 @@ var surfaces = []*surface{
 	}},
 }
 
+// bindNode: mostly a node whose subnet can serve what the pod requests (so that Bind gets as far as the apiserver calls)
+func bindNode(pod *corev1.Pod, h uint32) string {
+	if h%16 == 0 {
+		return "nosuchnode"
+	}
+	args := pod.Annotations[constant.ExtendedCNIArgsAnnotation]
+	switch {
+	case strings.Contains(args, "10.49.27."):
+		return "node1"
+	case strings.Contains(args, "10.173.13."):
+		return "node2"
+	}
+	return []string{"node1", "node2", "node3", "node4"}[h%4]
+}
+
 func surfaceByName(n string) *surface {
 	for _, s := range surfaces {
 		if s.name == n {
@@ -571,21 +676,37 @@ func surfaceByName(n string) *surface {
 }
 
 // follow-up calls: every lock of the instance must still be acquirable
-func (w *world) followIpam(in []byte) (string, string) {
-	d := w.ipam()
-	// exclusive cache lock (fails fast on the key check), shared cache lock, node-subnet lock, crd-key lock, the fixed
-	// pod's key lock and — if the case was about a pod — that pod's key lock
+func (w *world) followIpam(d *lockset.Ipamd, in []byte) (string, string) {
+	if w.fixedPod == nil {
+		w.fixedPod = fipPod("fixed-0")
+	}
+	// exclusive cache lock (fails fast on the key check), shared cache lock, node-subnet lock, crd-key lock
 	d.Plugin.GetIpam().Release("gxv-nokey", net.ParseIP("10.49.27.205"))
 	if _, err := d.Plugin.GetIpam().ByPrefix("gxv-none"); err != nil {
 		return "error", err.Error()
 	}
-	d.Plugin.Filter(w.fixedPod, d.Nodes)
-	if pod, err := decodePod(in); err == nil && pod.Name != "" {
+	// the SAME pod name / namespace (same key of the per-pod lock) with DIFFERENT operations: Filter, unbind, Release
+	if pod, err := decodePod(in); err == nil {
 		probe := fipPod(pod.Name)
 		probe.Namespace = pod.Namespace
-		probe.OwnerReferences = nil
+		d.Plugin.Filter(probe, d.Nodes)
 		d.Plugin.VerifLsUnbind(probe)
+		d.Plugin.Release(&schedulerplugin.ReleaseRequest{IP: net.ParseIP("10.49.27.205"),
+			KeyObj: util.NewKeyObj(util.StatefulsetPrefixKey, pod.Namespace, "fixed", pod.Name, "")})
+		// and the pool lock of its deployment / pool, through a deployment pod of the same names
+		dp := fipPod(pod.Name)
+		dp.Namespace = pod.Namespace
+		dp.OwnerReferences = []metav1.OwnerReference{{Kind: "ReplicaSet", Name: "dp-rs1"}}
+		dp.Annotations = map[string]string{constant.ReleasePolicyAnnotation: constant.Immutable}
+		if pool := constant.GetPool(pod.Annotations); pool != "" {
+			dp.Annotations[constant.IPPoolAnnotation] = pool
+		}
+		d.Plugin.Filter(dp, d.Nodes)
+		d.Plugin.VerifLsUnbind(dp)
 	}
+	// another pod
+	d.Plugin.Filter(w.fixedPod, d.Nodes)
+	d.Plugin.VerifLsUnbind(w.fixedPod)
 	code, _ := httpDo(d.API, "GET", "/v1/ip", "keyword=gxv-none", nil)
 	if code != 200 {
 		return "error", fmt.Sprintf("list status %d", code)
@@ -642,12 +763,25 @@ func workerMain() {
 			if override > to {
 				to = override
 			}
+			if s.family == "ipam" {
+				curFault = planFor(data)
+			}
 			o.Class, o.Detail = guard(to, func() (string, string) { return s.call(w, data) })
+			if curFault.kind != "" {
+				o.Fault = curFault.kind
+			}
+			curFault = faultPlan{} // the follow-up calls run against a healthy apiserver
 			o.Follow = "-"
 			if o.Class != "skip" {
 				switch s.family {
+				case "ipamconf":
+					c, d := guard(maxDur(watchdog, override), func() (string, string) { return w.followIpam(w.confIpam(), nil) })
+					o.Follow, o.FDet = followClass(c), d
+					if o.Class == "panic" || o.Follow != "ok" {
+						w.confd = nil
+					}
 				case "ipam":
-					c, d := guard(maxDur(watchdog, override), func() (string, string) { return w.followIpam(data) })
+					c, d := guard(maxDur(watchdog, override), func() (string, string) { return w.followIpam(w.ipam(), data) })
 					o.Follow, o.FDet = followClass(c), d
 					casesOnIpam++
 					if casesOnIpam%20 == 0 && o.Class != "hang" && o.Follow == "ok" {
